@@ -431,6 +431,23 @@ func runC14(w *eng.W) {
 			}
 		}
 	}
+	// long runs of blanks in front of a word (deep indentation): how much white space precedes a token does
+	// not decide what the token is
+	for _, word := range []string{"null", "true", "false", "this", "ctx", "typeof", "a", "$x", "typeo", "nulls", "1", "'s'", "..."} {
+		if !w.Take() {
+			continue
+		}
+		var pads []string
+		for n := 0; n <= 20; n++ {
+			pads = append(pads, strings.Repeat(" ", n), strings.Repeat("\t", n), "\n"+strings.Repeat(" ", n), strings.Repeat("\u3000", n), strings.Repeat("\r\n", n))
+		}
+		pads = append(pads, strings.Repeat(" ", 64), strings.Repeat(" ", 255), strings.Repeat(" \t", 130), strings.Repeat("\u00a0", 40))
+		for _, pad := range pads {
+			for _, ctx := range []string{"%s", "%s x", "a +%s", "[a,%s]", "f(%s)", "a ?%s : b"} {
+				do("long-trivia", []byte(strings.Replace(ctx, "%s", pad+word, 1)))
+			}
+		}
+	}
 	neighbourTexts(w, "neighbour-code-points", do)
 	// scanner differential on glued lexemes (no separator at all) and on raw bytes
 	for l := 1; l <= 3; l++ {
